@@ -1,4 +1,6 @@
-package mon
+// Package trigkit: helpers shared by the trigger properties (C16, C17): group-by nodes built from a JSON description,
+// a source that marks output positions, and the generated (t,k,x,y) changelogs.
+package trigkit
 
 import (
 	"fmt"
@@ -7,6 +9,8 @@ import (
 	"github.com/cube2222/octosql/execution"
 	"github.com/cube2222/octosql/execution/nodes"
 	"github.com/cube2222/octosql/octosql"
+
+	"verifharness/mon"
 )
 
 // ---- group-by nodes built from a JSON-serialisable description (used by the trigger properties) -----------------
@@ -122,14 +126,14 @@ func (s GroupBySpec) Simple(source execution.Node) (execution.Node, error) {
 // ---- a scripted source that marks how much output existed after each input message ------------------------------
 
 type marking struct {
-	msgs  []Msg
+	msgs  []mon.Msg
 	count func() int
 	marks []int
 }
 
 func (s *marking) Run(ctx execution.ExecutionContext, produce execution.ProduceFn, metaSend execution.MetaSendFn) error {
 	for _, m := range s.msgs {
-		if err := (&Scripted{Msgs: []Msg{m}}).Run(ctx, produce, metaSend); err != nil {
+		if err := (&mon.Scripted{Msgs: []mon.Msg{m}}).Run(ctx, produce, metaSend); err != nil {
 			return err
 		}
 		s.marks = append(s.marks, s.count())
@@ -139,24 +143,24 @@ func (s *marking) Run(ctx execution.ExecutionContext, produce execution.ProduceF
 
 // RunMarked runs build(source) over msgs. marks[i] is the number of output messages that had been emitted when the
 // source's i-th message had been fully processed (everything is synchronous: no goroutines in these nodes).
-func RunMarked(msgs []Msg, build func(source execution.Node) (execution.Node, error)) (outs []Out, marks []int, err error) {
+func RunMarked(msgs []mon.Msg, build func(source execution.Node) (execution.Node, error)) (outs []mon.Out, marks []int, err error) {
 	src := &marking{msgs: msgs}
 	src.count = func() int { return len(outs) }
 	node, err := build(src)
 	if err != nil {
 		return nil, nil, err
 	}
-	err = node.Run(Ctx(),
+	err = node.Run(mon.Ctx(),
 		func(ctx execution.ProduceContext, record execution.Record) error {
 			vals := make([]octosql.Value, len(record.Values))
 			copy(vals, record.Values)
 			record.Values = vals
-			outs = append(outs, Out{Rec: record})
+			outs = append(outs, mon.Out{Rec: record})
 			return nil
 		},
 		func(ctx execution.ProduceContext, msg execution.MetadataMessage) error {
 			if msg.Type == execution.MetadataMessageTypeWatermark {
-				outs = append(outs, Out{IsWM: true, WM: msg.Watermark})
+				outs = append(outs, mon.Out{IsWM: true, WM: msg.Watermark})
 			}
 			return nil
 		})
